@@ -25,8 +25,10 @@ import (
 	"github.com/trustbloc/sidetree-core-go/pkg/canonicalizer"
 	"github.com/trustbloc/sidetree-core-go/pkg/dochandler"
 	"github.com/trustbloc/sidetree-core-go/pkg/encoder"
+	"github.com/trustbloc/sidetree-core-go/pkg/hashing"
 	"github.com/trustbloc/sidetree-core-go/pkg/mocks"
 	"github.com/trustbloc/sidetree-core-go/pkg/observer"
+	"github.com/trustbloc/sidetree-core-go/pkg/patch"
 	"github.com/trustbloc/sidetree-core-go/pkg/processor"
 	restdoc "github.com/trustbloc/sidetree-core-go/pkg/restapi/dochandler"
 	"github.com/trustbloc/sidetree-core-go/pkg/versions/1_0/operationparser"
@@ -78,6 +80,13 @@ type bDID struct {
 	LongResp   map[string]interface{}
 	LongForm   string
 	Dead       bool // the client has submitted a deactivate
+
+	// what the create was built from (a sibling DID may be created from the same ingredients with another anchor origin)
+	initUpd, initRec *workload.Key
+	createPD         []workload.PatchDesc
+	createPatches    []patch.Patch
+	createOpaque     string
+	createType       string
 }
 
 type bTxn struct {
@@ -770,8 +779,26 @@ func (w *bWorld) clientStep(d *bDID) {
 			patches = nil
 		}
 
+		suffixType := []string{"", "", "ipdb"}[w.mark%3]
+
+		// a sibling: the same initial state (document, keys, type) registered once more under ANOTHER anchor origin - the
+		// two suffix data objects differ in the anchor origin only, so do the DIDs
+		if k.Draw(8, "did.sibling") == 0 {
+			for _, o := range w.dids {
+				if o != d && o.Create != nil && o.KeyType == d.KeyType && o.Hash == hash && o.initUpd != nil {
+					d.Upd, d.Rec, pd, patches, opaque, suffixType = o.initUpd, o.initRec, o.createPD, o.createPatches, o.createOpaque, o.createType
+					origin = map[string]interface{}{"sibling-of": o.Idx, "origin": fmt.Sprintf("origin-%d", w.mark)}
+					k.Count("probe:sibling-create-differing-in-anchor-origin-only")
+
+					break
+				}
+			}
+		}
+
+		d.initUpd, d.initRec, d.createPD, d.createPatches, d.createOpaque, d.createType = d.Upd, d.Rec, pd, patches, opaque, suffixType
+
 		req, err := workload.Build(&workload.OpSpec{Type: operation.TypeCreate, Hash: hash, NextUpdate: d.Upd, NextRecovery: d.Rec, Patches: patches, OpaqueDocument: opaque, AnchorOrigin: origin,
-			SuffixType: []string{"", "", "ipdb"}[w.mark%3]})
+			SuffixType: suffixType})
 		if err != nil {
 			w.fail("HARNESS", "client-build", err.Error())
 
@@ -999,6 +1026,12 @@ func (w *bWorld) submit(op *bOp) {
 	_ = qBefore
 	_ = uBefore
 
+	// now and then the request is exactly as large as the protocol allows (sent with trailing whitespace)
+	if max := int(w.proto.CurrentVersion().P.MaxOperationSize); op.Byz == "" && !op.Dup && len(op.Req) < max && k.Draw(15, "submit.maxsize") == 0 {
+		op.Req = append(append([]byte(nil), op.Req...), []byte(strings.Repeat(" ", max-len(op.Req)))...)
+		k.Count("probe:request-of-exactly-maximum-size")
+	}
+
 	code, body := w.post(op.Req)
 	op.Status = code
 	op.Accepted = code == http.StatusOK
@@ -1025,6 +1058,18 @@ func (w *bWorld) submit(op *bOp) {
 		for _, vv := range w.versions {
 			if vv.P.GenesisTime == op.Version {
 				if parsed, err := vv.Parser.ParseCreateOperation(op.Req, true); err == nil {
+					// the DID suffix is the multihash of the canonical suffix data under the accepting version's first algorithm -
+					// computed here from the request itself, independently of the library's suffix helpers
+					var cr struct {
+						SuffixData map[string]interface{} `json:"suffixData"`
+					}
+
+					if json.Unmarshal(op.Req, &cr) == nil && cr.SuffixData != nil {
+						if own, herr := hashing.CalculateModelMultihash(cr.SuffixData, vv.P.MultihashAlgorithms[0]); herr == nil && own != parsed.UniqueSuffix {
+							w.fail("C20", "create/suffix", fmt.Sprintf("did%d: the node derives the DID suffix %s for a create whose suffix data hashes to %s (suffix data %v)", d.Idx, parsed.UniqueSuffix, own, cr.SuffixData))
+						}
+					}
+
 					// (a retried create accepted under another protocol version may hash to another suffix: a different DID)
 					op.Suffix = parsed.UniqueSuffix
 					if d.Suffix == "" {
@@ -1738,7 +1783,50 @@ func (w *bWorld) byzantineTxn() {
 	bt := &bTxn{Idx: len(w.txns), ReplayOf: -1}
 	v := w.proto.CurrentVersion().P.GenesisTime
 
-	switch k.T.Draw(5, "byz.txn.kind") {
+	kind := k.T.Draw(6, "byz.txn.kind")
+
+	// a damaged copy of a real core index file (gzip stream cut short, or a bit flipped in its body) under its own address
+	if kind == 5 {
+		kind = 0
+
+		for i := len(w.txns) - 1; i >= 0; i-- {
+			t := w.txns[i]
+			if !t.Honest || len(t.Included) == 0 {
+				continue
+			}
+
+			ad, err := txnprovider.ParseAnchorData(w.ledger.Txns[i].AnchorString)
+			if err != nil {
+				break
+			}
+
+			orig := w.cas.Files[ad.CoreIndexFileURI]
+			if len(orig) < 30 {
+				break
+			}
+
+			damaged := append([]byte(nil), orig...)
+
+			switch k.T.Draw(3, "byz.txn.damage") {
+			case 0:
+				damaged = damaged[:len(damaged)-4] // the ISIZE trailer is missing
+			case 1:
+				damaged = damaged[:len(damaged)-1-k.T.Draw(len(damaged)/2, "byz.txn.cut")]
+			default:
+				damaged[len(damaged)/2] ^= 0x40 // CRC mismatch (or a broken deflate stream)
+			}
+
+			bt.Byz = "damaged-core-index"
+			w.ledger.OnAnchor = nil
+			w.ledger.Append(fmt.Sprintf("%d.%s", ad.NumberOfOperations, w.cas.Put(damaged)), nil, w.ledger.Txns[i].ProtocolVersion)
+			kind = -1
+
+			break
+		}
+	}
+
+	switch kind {
+	case -1:
 	case 4: // a valid-looking transaction of a namespace this node does not serve
 		bt.Byz = "unknown-namespace"
 		w.ledger.OnAnchor = nil
